@@ -299,7 +299,17 @@ def eval_handlers(repo, driver, items):
         if binds is not None:
             _count(st, 'really_binds' if binds else 'really_unbindable')
         if bnd is not None and binds is not None and bnd != binds:
+            # inspect.Signature.bind is only a cross-check; the two families where it is known to
+            # differ from a real call are named, anything else is reported as unexplained
             _count(st, 'inspect_bind_differs_from_real_call')
+            named = isinstance(args, dict)
+            if named and binds and not bnd and any(k == 0 and d and nm in args for k, nm, d in eff) \
+                    and any(k == 4 for k, _, _ in eff):
+                _count(st, 'bind_differs:posonly-default-name-goes-to-varkw')
+            elif named and bnd and not binds and set(args) & set(pre):
+                _count(st, 'bind_differs:prebound-name')
+            else:
+                _count(st, 'bind_differs:unexplained')
         # ---- property oracle on the implementation trace (not for hand-made signatures:
         # they are outside the property, only the model's failure paths are compared there)
         if wrap != 'fake':
@@ -575,11 +585,12 @@ def run(ctx):
     res['scopes']['repo_test_handlers'] = len(own) - 1
     out_of_scope_probes(ctx, res)
     # (b) ill-formed parameter lists: the model's TypeError / AttributeError paths
+    thorough = ctx.tier == 'thorough'
     bad = ill_formed_items(4 if ctx.deep else 3)
     run_items(ctx, res, bad, parallel=ctx.deep)
     res['scopes']['ill_formed_signatures'] = len(bad)
     # (c) exhaustive small scopes, smallest first; stop growing once something failed
-    maxn = 5 if ctx.deep else 4
+    maxn = 6 if thorough else 5 if ctx.deep else 4
     done = -1
     nsig = 0
     for n in range(0, maxn + 1):
@@ -590,16 +601,16 @@ def run(ctx):
         items = [(w, s, None) for s in sigs for w in wrappers_for(s)]
         run_items(ctx, res, items, parallel=True)
         done = n
-    plain6 = 0
+    extra = {}
     if ctx.deep and not unlisted_failure(ctx, res):
-        sigs = list(F.all_signatures(6, NAMES))
-        plain6 = len(sigs)
+        sigs = list(F.all_signatures(maxn + 1, NAMES))
+        extra = {'parameters': maxn + 1, 'signatures': len(sigs), 'wrappers': ['plain', 'method']}
         run_items(ctx, res, [(w, s, None) for s in sigs for w in ('plain', 'method')],
                   parallel=True)
     res['scopes']['exhaustive'] = {'max_parameters': done, 'signatures': nsig,
                                    'wrappers': ['plain', 'method', 'ppos1', 'ppos2', 'mpos1',
                                                 'pkw:first', 'pkw:last'],
-                                   'plain_and_method_with_6_parameters': plain6}
+                                   'one_size_more_plain_and_method_only': extra}
     # (d) seeded random larger signatures, mostly-valid calls + odd names
     ngen = 6000 if ctx.deep else 1200
     gen = []
